@@ -4,6 +4,18 @@ from vlib.core import Check, ROOT
 from vlib.xh import Harness, Batch
 
 
+INF_WITNESS = '''\
+import sys, math, warnings; warnings.simplefilter('ignore')
+import numpy as np
+import formulas
+v = np.ravel(np.asarray(formulas.Parser().ast('=SUM(1E+308,1E+308)')[1].compile()(), object))[0]
+print('SUM(1E+308,1E+308) =', v)
+if isinstance(v, float) and math.isinf(v):
+    print('REPRODUCED: an aggregation overflows to inf instead of #NUM!'); sys.exit(1)
+sys.exit(0)
+'''
+
+
 def run(tier, seed):
     ck = Check('C11', tier, seed, level='exploration')
     import formulas.functions as F
@@ -12,7 +24,8 @@ def run(tier, seed):
     ck.assume('function name, argument count and argument values are boolean selectors; every explored path calls the public registered callable natively',
               'admissible argument counts = the required positional parameters of the implementation, plus one and two more for variadic functions and for the optional arguments Excel documents (table OPTIONAL in harness/c11_total.py), at most 5',
               'error propagation is demanded of every function except the documented error-handling / inspection / selection functions listed in harness/c11_total.py:exempt()')
-    ck.out_of_scope('optional arguments beyond the second', 'argument tuples outside the pools (11 values for <= 2 arguments, 8 for 3, 4 for 4-5)', 'functions evaluated through formulas / ranges of a workbook')
+    ck.out_of_scope('optional arguments beyond the second', 'argument tuples outside the pools (12 values for <= 2 arguments, 8 for 3, 4 for 4-5; no number above 1E+154: see known finding C11-overflow-to-infinity)', 'functions evaluated through formulas / ranges of a workbook')
+    ck.check_known_witness('C11-overflow-to-infinity', INF_WITNESS)
     quick = tier == 'quick'
     src = open(os.path.join(ROOT, 'harness', 'c11_total.py')).read()
     groups = [names[i:i + 8] for i in range(0, len(names), 8)]
